@@ -222,6 +222,9 @@ var headRe = regexp.MustCompile(`^(\w+)(\[[A-Za-z0-9_,]*\])?\s*(.*)$`)
 var labelRe = regexp.MustCompile(`^([A-Za-z_#][A-Za-z0-9_#\-\.]*):([^:].*)$`)
 
 func resolveTarget(kind, target, pkg string) string {
+	if strings.HasPrefix(target, "funcfield:") {
+		return target // contract of the function values stored in a struct field: funcfield:<pkg>.<Type>.<field>
+	}
 	// already fully qualified?
 	if strings.Contains(target, "/") {
 		if kind == "iface" && !strings.HasPrefix(target, "(") {
